@@ -21,6 +21,8 @@ def main():
     sid = f"{prop}-{n}"
     if "/seed2/" in src:
         sid = f"{prop}-b{n}"
+    elif "/seed12/" in src:
+        sid = f"{prop}-l{n}"
     elif "/seed11/" in src:
         sid = f"{prop}-k{n}"
     elif "/seed10/" in src:
@@ -111,7 +113,7 @@ def main():
         meta_out = {"id": sid, "property": prop, "summary": meta.get("summary"), "site": meta.get("site"),
                     "needs_to_manifest": meta.get("needs_to_manifest"), "why_tests_pass": meta.get("why_tests_pass"),
                     "origin": "written by an independent sub-agent that saw only the property text and a scratch worktree",
-                    "round": 2 if "/seed2/" in src else (3 if "/seed3/" in src else (4 if "/seed4/" in src else (5 if "/seed5/" in src else (6 if "/seed6/" in src else (7 if "/seed7/" in src else (8 if "/seed8/" in src else (9 if "/seed9/" in src else (10 if "/seed10/" in src else (11 if "/seed11/" in src else 1))))))))),
+                    "round": 2 if "/seed2/" in src else (3 if "/seed3/" in src else (4 if "/seed4/" in src else (5 if "/seed5/" in src else (6 if "/seed6/" in src else (7 if "/seed7/" in src else (8 if "/seed8/" in src else (9 if "/seed9/" in src else (10 if "/seed10/" in src else (11 if "/seed11/" in src else (12 if "/seed12/" in src else 1)))))))))),
                     "what_i_ran": res, "demo_files_note": "demo test files are stored with a .txt suffix so that they are never compiled from /verif; copy them (without .txt) to the package named in DEMO.md"}
         json.dump(meta_out, open(dst + "/meta.json", "w"), indent=1)
     return 0 if ok else 1
